@@ -13,6 +13,8 @@
 (*          "run" run-only element, "both" run and fill/request            *)
 (*   m      number of results the element yields per request               *)
 (*   pv     (run elements) additionally one result per value of the block  *)
+(*   take   (run elements) 0: the element's run consumes its whole flow;   *)
+(*          t > 0: it stops reading after t values (like Slice(t))         *)
 (*                                                                         *)
 (* The wrapped element is abstracted to its content: the values filled     *)
 (* since it was last reset (or ever).  A request yields m results that     *)
@@ -24,6 +26,8 @@ EXTENDS SplitSem
 Res(cfg, e) == [j \in 1..cfg.m |-> [i |-> j, p |-> e]]
 PerValue(cfg, blk) == IF cfg.pv THEN [j \in 1..Len(blk) |-> [i |-> 0, p |-> <<blk[j]>>]] ELSE <<>>
 AfterYield(cfg, e) == IF cfg.reset THEN <<>> ELSE e
+\* the values of a block that the element's run reads
+Taken(cfg, blk) == IF cfg.take = 0 \/ cfg.take >= Len(blk) THEN blk ELSE SubSeq(blk, 1, cfg.take)
 
 (***************************************************************************)
 (* run: "fill each value from a subslice of bufsize length, then yield     *)
@@ -36,10 +40,10 @@ RECURSIVE RunBlocks(_, _, _)
 RunBlocks(cfg, xs, acc) ==
   IF xs = <<>> THEN <<>>
   ELSE IF Len(xs) < cfg.n
-       THEN (IF cfg.yor THEN PerValue(cfg, xs) \o Res(cfg, acc \o xs) ELSE <<>>)
+       THEN (IF cfg.yor THEN PerValue(cfg, Taken(cfg, xs)) \o Res(cfg, acc \o Taken(cfg, xs)) ELSE <<>>)
        ELSE LET blk == SubSeq(xs, 1, cfg.n)
-                e == acc \o blk
-            IN PerValue(cfg, blk) \o Res(cfg, e)
+                e == acc \o Taken(cfg, blk)
+            IN PerValue(cfg, Taken(cfg, blk)) \o Res(cfg, e)
                  \o RunBlocks(cfg, SubSeq(xs, cfg.n + 1, Len(xs)), AfterYield(cfg, e))
 RunSem(cfg, xs) == RunBlocks(cfg, xs, <<>>)
 \* the values of xs that lie in complete blocks
